@@ -97,6 +97,16 @@ PROPS = {
         level_text="Generated-input search over triples (D, P1, P2) with P2 mostly a mutation of P1 and nulls at every depth: applying MergeMergePatches(P1,P2) must equal applying P1 then P2, via the reference algorithm and via the library; a non-object P2 must come back as the combined patch. Incompatible pairs are excluded by the property's own condition. Exploration only.",
         level_note="Trusted: harness/ref Merge. The compatibility condition is computed by the harness exactly as the statement gives it.",
     ),
+    "C09": dict(
+        pkg="c09",
+        units=[rapid("TestProp", 1200, 15000, memlimit="4GiB"), rapid("TestPropLegacy", 600, 8000, memlimit="4GiB")],
+        assumptions=COMMON_ASSUME + ["a Patch value is observed through its exported representation (a slice of maps from member name to raw message): keys, pointer identities and bytes; input buffers are observed over their full capacity",
+                                     "the history-free answer is taken from a fresh process (this test binary re-executed) that performs only that call (for the Apply family: DecodePatch then the call)",
+                                     "the staged legacy root package is built from /repo's working tree as module github.com/evanphx/json-patch"],
+        technique="stateful property-based testing (rapid): generated call histories over shared buffers and shared decoded Patch values; invariants after every step (inputs incl. spare capacity, Patch snapshots, earlier outputs unchanged), memoised results per call signature forwards and in reverse, and a fresh-process oracle for sampled calls",
+        level_text="Generated-input search over call histories: 4-40 calls of every exported function over a pool of shared buffers (documents, patches, merge patches, malformed texts) and shared decoded Patch values, v5 and the staged legacy package. After every call all inputs (with sentinel-filled spare capacity), every Patch and every earlier output must be unchanged; a call signature must give the same result (bytes for Apply/ApplyIndent/CreateMergePatch/Equal/DecodePatch, JSON value for MergePatch/MergeMergePatches, error text) wherever it occurs, with a reused or fresh Patch, forwards and again in reverse order; sampled calls must equal the result of a fresh process doing only that call. Exploration only.",
+        level_note="Trusted: harness/calls (call execution and snapshots), os/exec re-execution of the test binary as the history-free reference. Purity is observed on the public API; package-level defaults are not varied.",
+    ),
     "C11": dict(
         pkg="c11", units=[rapid("TestProp", 20000, 200000), plain("TestTable", shards=dict(quick=1, thorough=1))], assumptions=COMMON_ASSUME,
         technique="property-based testing (rapid) over member mutations of valid patches plus an exhaustively enumerated single-mutation table; independent validator as oracle",
